@@ -68,6 +68,7 @@ def run_property(pid, tier, m=None, configs=None, quiet=False, shared_ctx=None):
     instances = {}
     tables = {}
     exceptions = []
+    controls = []
     nfuncs = 0
     nunits = 0
     cfg_names = []
@@ -105,6 +106,9 @@ def run_property(pid, tier, m=None, configs=None, quiet=False, shared_ctx=None):
         for e in ctx.exceptions:
             if e not in exceptions:
                 exceptions.append(e)
+        for c_ in ctx.controls:
+            if isinstance(c_, dict) and c_ not in controls:
+                controls.append(c_)
     # ---- compare with known findings
     open_known = [k for k in known.get('findings', []) if k.get('property') == pid]
     dep_known = [k for k in known.get('findings', []) if k.get('property') in deps]
@@ -180,6 +184,7 @@ def run_property(pid, tier, m=None, configs=None, quiet=False, shared_ctx=None):
             'rule_instances': dict((k, v) for k, v in sorted(instances.items())),
             'extracted_tables': tables,
             'exceptions_applied': [{'rule': r, 'symbol': s, 'reason': why} for (r, s, why) in exceptions],
+            'positive_controls': controls,
             'known_findings_matched': [{'rule': f.rule, 'function': f.func, 'key': f.key, 'loc': f.loc}
                                        for (k, f) in matched],
             'notes': [f.to_json() for f in notes],
